@@ -357,8 +357,10 @@ fn main() {
         }
     }
     ctx.watchdog(120, || J::Str("no progress in the C01 explorer".into()));
-    let stats = explore_cases(ctx, &cases, opts, &no_extra);
+    let mut stats = explore_cases(ctx, &cases, opts, &no_extra);
     guard(&stats, 4, true);
+    // patterns of other methods never influence the answer: same-named generic methods of two traits
+    vh::twins::cells(ctx, &mut stats, "twins:same-named-generic-methods");
 
     let cov = coverage(
         ctx,
